@@ -73,7 +73,7 @@ def convert(events):
 
 
 class IxWorld(object):
-    def __init__(self, storage="file", compound=True, sortable=True, reopen=False):
+    def __init__(self, storage="file", compound=True, sortable=True, reopen=False, mmap=True):
         from whoosh import fields
         self.log = Log()
         self.dir = None
@@ -81,7 +81,8 @@ class IxWorld(object):
             self.st = TracingRamStorage(self.log)
         else:
             self.dir = tempfile.mkdtemp(prefix="verif-ixs-")
-            self.st = TracingFileStorage(self.dir, log=self.log)
+            # (mmap=False: segment files are read through file handles instead of a memory map)
+            self.st = TracingFileStorage(self.dir, log=self.log, supports_mmap=mmap)
         self.schema = fields.Schema(key=fields.ID(stored=True, unique=True),
                                     uid=fields.NUMERIC(stored=True, unique=True),
                                     body=fields.TEXT(sortable=sortable), n=fields.NUMERIC(sortable=sortable),
@@ -344,7 +345,10 @@ def random_history(rng, wld, nsteps, keys=("k1", "k2", "k3", "k4", "k5")):
             ok, s = wld.guarded(name, "searcher", wld.reader_handle().searcher)
             if ok:
                 searchers.append((name, s))
-                wld.probe(name, s)
+                # (not always looked at right away: a snapshot whose files are first read after later commits
+                # have merged its segments away)
+                if rng.random() < 0.6:
+                    wld.probe(name, s)
         elif c < 0.9:
             name, s = rng.choice(searchers)
             wld.probe(name, s)
